@@ -24,6 +24,14 @@ or the reverse — is a differing `recheck`/`readfile`/`readdir`/`dump` line) on
 Spec vs implementation without the Lean model: `fs oracle` (flat reference written from the sentences of
 the property; listings as sets, snapshots by construction).
 
+Structural tie (every run, DESIGN 1.4): `harness/cmd/fsfacts facts C01` (go/ast) rewrites
+lean/Goat/Tie/ExtractedFSC01.lean from the sources under test — normal forms of getData / setData / getNodes /
+copyFile / copyDir / FileHandler.Write / Read, the slice events of WriteFile / Writer / addNode / mkdir /
+removeNodeByName, a census of the functions that mention `.data` / `.nodes`, the path discipline of every method of
+Filespace and FilespaceWrapper, ReduceAbsPath — and the theorems `tie_*` of lean/Goat/Tie/FSC01.lean compare them
+by `decide` with the copy/share table in the header of Model/MemFSHeap.lean.  They are obligations of the check: a
+failing one is followed by the search below and ends as `no-failing-input-found` when nothing concrete turns up.
+
 The model is *proved* to refine the Spec, so an implementation/model difference in an observable value is
 a counterexample to the property; it is minimised (ddmin) and re-judged by the independent reference
 (`fs refcheck`).  A difference that is only about ok/err of a call the property does not constrain, with
@@ -35,6 +43,7 @@ import json
 import os
 import subprocess
 
+import fs_tie
 import lib
 
 META = dict(
@@ -53,7 +62,11 @@ META = dict(
              "in step with the tree), and the invariant disproved for the pre-fix code "
              "(snapshot_prefix_variant_false).  Both models are tied to /repo on "
              "every run by a three-way differential over random histories (all 16 methods, all spellings, views, "
-             "alias probes) and an exhaustive small scope.",
+             "alias probes) and an exhaustive small scope, and by a structural tie: go/ast normal forms of the copy "
+             "points (WriteFile/setData copy in, getData/getNodes copy out, copyFile/copyDir copy, handle Write "
+             "appends, Writer installs a fresh slice, removeNodeByName shifts in place), of the `.data`/`.nodes` "
+             "census and of the path discipline of every method, regenerated from the sources on every run and "
+             "compared with the model's assumptions by `decide` (lean/Goat/Tie/FSC01.lean, theorems tie_*).",
         design_ref="DESIGN.md 3 C01"),
     level_note="Trusted: Lean kernel (axioms propext/Classical.choice/Quot.sound only); the two hand-written models' "
                "correspondence to /repo (differential; generator reach printed in the histogram); Go slice/map "
@@ -61,13 +74,17 @@ META = dict(
                "(Model/MemFSHeap.lean), for every `append` growth policy; that this model places its copies and its "
                "sharing where memfs does (WriteFile/setData/getData/getNodes/copyFile copy, removeNodeByName shifts in "
                "place, Writer installs a fresh slice) is read off the source (file:line table in the model's header) "
-               "and checked by the alias-probe differential implementation vs m_fsheap, not proved. Trusted about Go: "
+               "and checked on every run (a) by the structural tie lean/Goat/Tie/FSC01.lean — SYNTACTIC: go/ast normal forms of "
+               "exactly those functions compared by `decide`, trusted as a reading of the text of the named functions, "
+               "blind to what they call — and (b) by the alias-probe differential implementation vs m_fsheap; neither "
+               "is a proof that the Go code has the model's semantics. Trusted about Go: "
                "`make`+`copy` yields storage disjoint from everything else, `append` writes only into its first "
                "argument's array or a fresh one and only reads its second, the os.FileInfo interface gives no write "
                "access to a node. Not in the heap model: a caller buffer passed to Reader.Read that is also held "
                "elsewhere (Read buffers are fresh), capacity-dependent behaviour of code that is not in /repo now.",
-    technique="Lean 4 proof (refinement to a point-wise spec, induction over histories) + differential "
-              "correspondence (random + exhaustive small scope) + reference oracle",
+    technique="Lean 4 proof (refinement to a point-wise spec, induction over histories) + structural tie (go/ast "
+              "normal forms of the copy points and path discipline vs hand-written expectations, `decide`) + "
+              "differential correspondence (random + exhaustive small scope) + reference oracle",
 )
 
 NSHARDS = 16
@@ -306,7 +323,14 @@ def _oracle(ctx, go, n):
 
 
 def run(ctx):
-    failed = ctx.lean_obligations()
+    try:
+        _run(ctx)
+    finally:
+        fs_tie.restore(ctx)   # a run against a scratch worktree leaves the extracted facts of /repo behind
+
+
+def _run(ctx):
+    failed = fs_tie.obligations(ctx)   # Props/C01 + the structural tie Goat.Tie.FSC01 (regenerated from ctx.repo)
     go = ctx.build_go("fs")
     model = ctx.build_model("m_fs")
     heap = ctx.build_model("m_fsheap")
@@ -440,9 +464,10 @@ def run(ctx):
         "d.nodes[:len]; ReadDir copies `k.entries` and removeNodeByName takes the position from `k` — proved equal to "
         "reading the array (listing_sync) for the repaired code; Reader.Read buffers are fresh caller buffers; "
         "os.FileInfo values of listings are observed as (Name, IsDir) and give no write access",
-        "the tie heap model <-> /repo is the differential implementation vs m_fsheap with alias probes "
-        "(keep/mutate/recheck after write, writer, readfile, readdir, reader), the copy/share points are listed with "
-        "file:line in lean/Goat/Model/MemFSHeap.lean",
+        "the tie heap model <-> /repo is (a) the differential implementation vs m_fsheap with alias probes "
+        "(keep/mutate/recheck after write, writer, readfile, readdir, reader) and (b) the structural tie "
+        "lean/Goat/Tie/FSC01.lean: the copy/share points listed with file:line in lean/Goat/Model/MemFSHeap.lean are "
+        "extracted from the sources on every run and compared by `decide` (syntactic: the text of the named functions)",
         "the harness observes the filespace through the public interface only; FileInfo of listed entries is observed "
         "as (Name, IsDir), Lstat as (Name, IsDir, Size of a file)",
         "Writer/Reader handles are used atomically (open, writes/reads, close)",
@@ -451,11 +476,11 @@ def run(ctx):
                             "opinion when implementation and model differ")
     ctx.trusted_base.append("Go slice semantics as modelled in Model/MemFSHeap.lean (append into spare capacity or a "
                             "fresh array, copy, re-slicing); placement of copies in the heap model = placement in "
-                            "memfs (differential only)")
+                            "memfs (structural tie tie_* + differential)")
     if failed:
         ctx.obligation_violations(failed, searcher=lambda: concrete_found)
     if not ctx.quick():
-        ctx.leanchecker(["Goat.Props.C01"])
+        ctx.leanchecker(["Goat.Props.C01", fs_tie.tie_module(ctx)])
         if any(not o["ok"] for o in ctx.obligations) and not failed:
             ctx.obligation_violations([o for o in ctx.obligations if not o["ok"]])
 
